@@ -1073,6 +1073,9 @@ class Exec:
             raise PyRaise("IndexError", "pair index")
         if isinstance(base, Ref) and isinstance(self.heap[base.oid], HObjList):
             o = self.heap[base.oid]
+            if self.spec_mode and isinstance(idx, SV) and idx.kind in ("none", "val"):
+                # guarded sub-expression of a clause: treat the index as its integer view (undefined where the guard is false)
+                idx = I(ops.as_int(idx)) if idx.kind == "val" else I(z3.Int(fresh_name("undef")))
             if not (isinstance(idx, SV) and idx.kind in ("int", "bool")):
                 raise OutsideSubset("object list index type")
             i = ops.as_int(idx)
@@ -1112,6 +1115,9 @@ class Exec:
                     return o.items[c]
                 raise OutsideSubset("index type")
             if isinstance(o, HList):
+                if self.spec_mode and isinstance(idx, SV) and idx.kind == "none":
+                    # a guarded sub-expression of a clause (x is not None and xs[x] ...): any value will do where the guard is false
+                    return ops.elem_sv(o.elem, z3.Const(fresh_name("undef"), ops.seq_sort(o.elem).basis()))
                 if not (isinstance(idx, SV) and idx.kind in ("int", "val", "bool")):
                     raise OutsideSubset("list index type")
                 ln = z3.Length(o.seq)
@@ -1571,8 +1577,15 @@ class Exec:
             return B(z3.PrefixOf(sarg(0), s))
         if name == "endswith":
             return B(z3.SuffixOf(sarg(0), s))
-        if name == "isdigit":
-            raise OutsideSubset("isdigit")
+        if name in ("isdecimal", "isdigit"):
+            # ASCII reading: non-empty and all decimal digits  ([A]: other Unicode decimal digits are not modelled)
+            f = z3.Function("py_isdecimal", z3.StringSort(), z3.BoolSort())
+            key = ("isdecimal", s.get_id())
+            if key not in self.axioms_done:
+                self.axioms_done.add(key)
+                self.pc.append(f(s) == (z3.StrToInt(s) >= 0))
+                self.pc += ops.int_parse_axioms(s)
+            return B(f(s))
         raise OutsideSubset(f"str.{name}")
 
     def list_method(self, ref, o, name, args):
@@ -1821,6 +1834,9 @@ class Exec:
             if nm in ("fs_exists", "fs_isfile", "fs_isdir", "path_join", "path_basename", "path_dirname"):
                 vals = [self.eval(a) for a in n.args]
                 return self.pure_external(nm, "bool" if nm.startswith("fs_") else "str", vals)
+            if nm == "int_of":
+                v = self.eval(n.args[0])
+                return I(ops.py_int_of(ops.as_str(v)))
             if nm == "effects_count":
                 kind = n.args[0].value
                 return I(len([e for e in self.effects if e[0] == kind]))
